@@ -23,13 +23,18 @@ type s5Conn struct {
 	in  []byte
 	pos int
 	out [][]byte
+	cut int // segment boundary: a Read never returns bytes from both sides of it (0: none)
 }
 
 func (c *s5Conn) Read(p []byte) (int, error) {
 	if c.pos >= len(c.in) {
 		return 0, io.EOF
 	}
-	n := copy(p, c.in[c.pos:])
+	avail := c.in[c.pos:]
+	if c.cut > c.pos && c.cut < len(c.in) {
+		avail = c.in[c.pos:c.cut]
+	}
+	n := copy(p, avail)
 	c.pos += n
 	return n, nil
 }
@@ -116,7 +121,8 @@ func harnessC23Stream() {
 	if n >= 3 {
 		verif_assume(in[0] == 5 && in[1] == 1 && in[2] == 0)
 	}
-	c := &s5Conn{in: in}
+	// the stream arrives in two segments split at an arbitrary position (or in one piece)
+	c := &s5Conn{in: in, cut: verif_choose(n + 1)}
 	err := h.Handle(c)
 	verif_reach("C23/stream")
 	// replies: first record is the method selection, any later record is a reply
